@@ -16,6 +16,8 @@ constant regenerated from actor/pid.go (`touchInterval_tie`).
 -/
 import GoaktVerif.Gen.C12
 import GoaktVerif.Lemmas.C12
+import GoaktVerif.Lemmas.C12Once
+import GoaktVerif.Lemmas.C12Count
 import GoaktVerif.Spec.C12
 
 namespace GoaktVerif.C12
@@ -116,7 +118,81 @@ theorem C12_count_threshold (cfg : List (Strat × Bool)) (ops : List Op) :
   intro a g p b m h
   simpa [evOK, countOK] using log_sound cfg ops _ h
 
+/-- the count clause of `C12_full` holds for ALL op sequences: every passivation attempt of the
+    message-count path goes back to a MessageProcessed call of that very entry object that found
+    `processed ≥ baseline + maxMessages` -/
+theorem C12_count (cfg : List (Strat × Bool)) (ops : List Op) :
+    ∀ a g, Ev.countFire a g ∈ (run (init cfg) ops).log →
+      ∃ a' p b m, Ev.crossed a' g p b m ∈ (run (init cfg) ops).log ∧ countOK p b m = true := by
+  intro a g h
+  obtain ⟨a', p, b, m, hm⟩ := (cinv_reachable cfg ops).fire a g h
+  exact ⟨a', p, b, m, hm, C12_count_threshold cfg ops a' g p b m hm⟩
+
+/-! ### PostStop: exactly where the "exactly once" clause fails -/
+
+/-- for every configuration and EVERY op sequence: an actor's PostStop count is the number of stops of
+    it while running (at most ONE, ever) plus the number of stops performed on it when it was already
+    stopped; and once stopped it is never running again -/
+theorem C12_poststop_accounting (cfg : List (Strat × Bool)) (ops : List Op) (a : Nat) :
+    ((run (init cfg) ops).actors a).postStops
+        = liveStops (run (init cfg) ops).log a + deadStops (run (init cfg) ops).log a
+    ∧ liveStops (run (init cfg) ops).log a ≤ 1 :=
+  ⟨(invO_reachable cfg ops a).1, (invO_reachable cfg ops a).2.1⟩
+
+/-- the once clause holds in every run in which no stop ever reached an already stopped actor — the
+    only way to a second PostStop is the missing running check of `tryPassivation` (C12-F1) -/
+theorem C12_once_partial (cfg : List (Strat × Bool)) (ops : List Op) (a : Nat)
+    (h : Ev.postStop a false ∉ (run (init cfg) ops).log) :
+    onceOK ((run (init cfg) ops).actors a).postStops = true := by
+  have hi := invO_reachable cfg ops a
+  have h0 : deadStops (run (init cfg) ops).log a = 0 := List.count_eq_zero.mpr h
+  simp only [onceOK, decide_eq_true_eq]
+  omega
+
+/-- a passivated actor is no longer running and its PostStop ran (all op sequences) -/
+theorem C12_stopped (cfg : List (Strat × Bool)) (ops : List Op) :
+    ∀ a src ll ss sk st su pf rn now latest pr,
+      Ev.tried a src true ll ss sk st su pf rn now latest pr ∈ (run (init cfg) ops).log →
+      ((run (init cfg) ops).actors a).running = false ∧ 1 ≤ ((run (init cfg) ops).actors a).postStops := by
+  intro a src ll ss sk st su pf rn now latest pr h
+  obtain ⟨w, hw⟩ := adjOK_mem _ (log_good cfg ops).2 a src ll ss sk st su pf rn now latest pr h
+  have hi := invO_reachable cfg ops a
+  have hpos : 1 ≤ liveStops (run (init cfg) ops).log a + deadStops (run (init cfg) ops).log a := by
+    cases w
+    · have : 0 < deadStops (run (init cfg) ops).log a := List.count_pos_iff.mpr hw
+      omega
+    · have : 0 < liveStops (run (init cfg) ops).log a := List.count_pos_iff.mpr hw
+      omega
+  exact ⟨hi.2.2 hpos, by omega⟩
+
+example : Ev.postStop 0 false ∉ (run (init [(.time 1000, false)]) [.adv 1000, .tick [] [], .simple (.stop 0)]).log := by decide
+
+/-- What survives of `C12_full`, for every configuration and EVERY op sequence (runtime-level or raw,
+    any operations inside the unlock windows): the guard clause, the count clause, "passivated ⇒ stopped",
+    the decision-instant form of the time clause, and the once clause whenever no stop reached an
+    already stopped actor.  (Excluded: the literal time clause — C12-F2 — and PostStop-once in runs
+    where `tryPassivation` reaches a stopped actor — C12-F1.) -/
+theorem C12_partial (cfg : List (Strat × Bool)) (ops : List Op) :
+    (∀ a src ll ss sk st su pf rn now latest pr,
+        Ev.tried a src true ll ss sk st su pf rn now latest pr ∈ (run (init cfg) ops).log →
+        guardsOK ll pf su st = true ∧
+        ((run (init cfg) ops).actors a).running = false ∧ 1 ≤ ((run (init cfg) ops).actors a).postStops) ∧
+    (∀ a g, Ev.countFire a g ∈ (run (init cfg) ops).log →
+        ∃ a' p b m, Ev.crossed a' g p b m ∈ (run (init cfg) ops).log ∧ countOK p b m = true) ∧
+    (∀ a g now deadline T latest ep ar cur,
+        Ev.decide a g now deadline T latest ep ar cur ∈ (run (init cfg) ops).log → deadline ≤ now) ∧
+    (∀ a, Ev.postStop a false ∉ (run (init cfg) ops).log →
+        onceOK ((run (init cfg) ops).actors a).postStops = true) :=
+  ⟨fun a src ll ss sk st su pf rn now latest pr h =>
+      ⟨(C12_guards cfg ops a src ll ss sk st su pf rn now latest pr h).1,
+       C12_stopped cfg ops a src ll ss sk st su pf rn now latest pr h⟩,
+   C12_count cfg ops, C12_decision_after_deadline cfg ops, fun a h => C12_once_partial cfg ops a h⟩
+
 /-! ### non-vacuity: runs in which these events occur -/
+
+example : Ev.countFire 0 0 ∈ (run (init [(.count 1, false)])
+    [.simple (.deliver 0), .simple (.deliver 0), .drain [] []]).log := by decide
+
 
 example : Ev.tried 0 .timer true false false false false false false true 1000 none 0
     ∈ (run (init [(.time 1000, false)]) [.adv 1000, .tick [] []]).log := by decide
